@@ -900,6 +900,8 @@ def evalmp(s, env, digits=60):
                 r = consts[f]()
             elif f in fn:
                 r = fn[f](*args)
+            elif f.startswith("polygamma") and f[9:].isdigit() and len(args) == 1:
+                r = mp.polygamma(int(f[9:]), args[0])      # contract atoms of ekore's cern_polygamma (contracts/harmonic_spec.py)
             else:
                 r = unint(f, args)
         elif op == "ite":
